@@ -198,7 +198,8 @@ def check(case):
     term = case["event"] == "terminal"
     tc_ = case["t0"] + 0.6 * (case["tf"] - case["t0"])
     sg_ = 1.0 if case["tf"] > case["t0"] else -1.0
-    term_hit = term and (case["t_eval"] is None or max(sg_ * np.asarray(case["t_eval"])) > sg_ * tc_ + 1e-9)
+    # (the run covers t_span whatever output times are asked for, so a terminal event inside the span always ends it)
+    term_hit = term
     if term:
         labels.append("terminal_event:" + ("hit" if term_hit else "not_reached"))
     t_end = tc_ if term_hit else case["tf"]
@@ -227,6 +228,8 @@ def check(case):
                 if not d <= bound:
                     viols.append(V("t_eval_accuracy", "{}: at t_eval[{}]={!r} the returned state is off by {:.3e} (allowed {:.3e})".format(mname, j, float(t[j]), d, bound), sig, **attrs))
                     break
+    if case["t_eval"] is not None and len(osys) >= 1 and abs(float(np.asarray(osys.t)[-1]) - t_end) > (1e-9 if term_hit else 64 * eps) * max(1.0, abs(t_end)):
+        viols.append(V("span_not_covered", "t_eval given: the underlying run ended at {!r}, t_span ends at {!r}{}".format(float(np.asarray(osys.t)[-1]), case["tf"], " (terminal event at {!r})".format(tc_) if term_hit else ""), sig, **attrs))
     # ---- max_step
     steps = np.abs(np.diff(np.asarray(osys.t, dtype=np.float64)))
     active = False
@@ -246,7 +249,9 @@ def check(case):
         sg_ = 1.0 if case["tf"] > case["t0"] else -1.0
         if term_hit != ("terminated upon" in str(res.status)):
             viols.append(V("status", "terminal event {}: status {!r}".format("reached" if term_hit else "not reached", res.status), sig, **attrs))
-        reached = case["t_eval"] is None or max(sg_ * np.asarray(case["t_eval"])) > sg_ * tc + 1e-9
+        # (the integration covers t_span whatever t_eval asks for - scipy's semantics: an event behind the last output time
+        #  is still an event of the run)
+        reached = True
         evs = list(res.t_events)
         if reached and (len(evs) != 1 or abs(float(evs[0].t) - tc) > 1e-9 * max(1.0, abs(tc))):
             viols.append(V("events", "time event at {!r}: result.t_events has {} records {}".format(tc, len(evs), [float(e.t) for e in evs][:4]), sig, **attrs))
